@@ -267,6 +267,47 @@ def check_torn_tail(ctx):
                   "a physical record is returned only after it was consumed from the buffer")
 
 
+def check_silent_skip(ctx):
+    """read_physical_record never throws bytes away silently in mid-log: when
+    it discards buffered data it reports to its caller (EOF / BAD_RECORD), so
+    that a pending fragmented record is abandoned; only block padding (< header
+    size) is skipped on the way to the next block."""
+    r = ctx.fn("read_physical_record", LR)
+    g = xgraph(ctx.P, r)
+    n = 0
+    for b, i, e in find_calls(r, "ldb_slice_reset"):
+        if argkey(e, 0) != "&lr->buffer":
+            continue
+        n += 1
+        atoms = g.must_at(b, i)
+        if holds(atoms, ("<", "lr->buffer.size", 7)) and holds(atoms, ("==", "lr->eof", "0")):
+            ctx.ok("T1-log-no-silent-skip", "trailer@%s" % e["l"].split(":")[1], site(r, e), "block padding skipped before a refill")
+            continue
+        cid = e["id"]
+
+        def step(q, ev, st, bb, ii, cid=cid):
+            from ..rules import BAD
+            if q == BAD:
+                return q
+            if ev["e"] == "call" and ev.get("id") == cid:
+                return 1
+            if q == 1 and ev["e"] == "ret":
+                return 0
+            if q == 1 and (is_call(ev, "ldb_rfile_read") or (ev["e"] == "decl" and ev["n"] == "header") or
+                           (ev["e"] == "asg" and key(ev["lhs"]) == "header")):
+                from ..rules import BAD as B2
+                return B2
+            return q
+        from ..rules import check_automaton
+        check_automaton(ctx, "T1-log-no-silent-skip", "drop@%s" % e["l"].split(":")[1], r, 0, step, None,
+                        "dropping buffered log bytes ends the call with EOF/BAD_RECORD (the caller abandons a pending fragment)")
+    ctx.require(n >= 5, "read_physical_record: buffer resets not found (%d)" % n)
+    # BAD_RECORD is what the zero-length / bad-length / bad-CRC / pre-offset branches return
+    rets = [const_val(e.get("x")) for b, i, e in r.events("ret")]
+    ctx.check(rets.count(BADREC) >= 4, "T1-log-no-silent-skip", "bad-record-returns", r.name, r.loc,
+              "four conditions report LDB_BAD_RECORD", "LDB_BAD_RECORD returns: %d" % rets.count(BADREC))
+
+
 def callee(e):
     return e.get("f") or (e.get("mac") or ["?"])[0]
 
